@@ -203,3 +203,15 @@ def input_rewriting(ctx):
                   'exit=True transforms the output, otherwise the input', '%s applies its transform on the wrong side' % name, dec, sel[0] if sel else dec.node)
         _ref(ctx, fe, 'def func(x, *args, **kwds):\n    return %s\n' % inner.format('f(x, *args, **kwds)'), name + '[exit]', 'output transformed')
         _ref(ctx, fi, 'def func(x, *args, **kwds):\n    return f(%s, *args, **kwds)\n' % inner.format('x'), name + '[entry]', 'input transformed')
+
+
+C16_ENTRIES = [CN + ':' + n for n in ('impose_bounds', 'bounded', 'discrete', 'integers', 'rounded', 'precision', 'unique', 'impose_unique',
+                                      'monotonic', 'sorting', 'impose_at', 'impose_as', 'with_mean', 'with_variance', 'with_spread', 'normalized')] + \
+              [TL + ':' + n for n in ('insert_missing', 'masked', 'partial', 'synchronized', 'suppress', 'suppressed', 'clipped', 'connected')]
+
+
+@rule('C16.f', min_instances=3)
+def numpy_reductions_get_arrays(ctx):
+    """resolved callees: no numpy reduction reachable from a constraint transform is handed a generator expression (`from numpy import sum` shadows the builtin in constraints.py; numpy.sum(<generator>) raises, so the transform would fail on every input)"""
+    from . import npcalls
+    npcalls.check_closure(ctx, C16_ENTRIES, min_sites=3)
